@@ -70,6 +70,11 @@ func parseJSONMultiPoint(keys *parseKeys, opts *ParseOptions) (Object, error) {
 	if err := parseBBoxAndExtras(&g.extra, keys, opts); err != nil {
 		return nil, err
 	}
+	if opts.RequireValid {
+		if !g.Valid() {
+			return nil, errCoordinatesInvalid
+		}
+	}
 	g.parseInitRectIndex(opts)
 	return &g, nil
 }
